@@ -77,7 +77,7 @@ module.exports = {
   rule: 'random call histories (20-200 calls over 5-30 distinct requests: corpus, catalogue, random, mutated/syntax-error, several sourceMappingURL comments, many literals, not-modified, refused name collision) on 1-4 rewriter instances per configuration are recorded at the harness boundary; an offline checker requires every response to equal (content bytes, metrics, literal set, error text) the response to the same request issued alone in a fresh process, on another instance, and in replays of the whole history in other processes (fresh hash seeds / ASLR). With the prefix omitted equality is modulo the prefix and the prefix must be constant per instance. A memcheck run (track-origins) over a history looks for uninitialised-value use. distinct_nontrivial = distinct (request, position-in-history) observations compared.',
   assumptions: ['literal reports are compared as sets (their order is unspecified)', 'native build: hash seeds and ASLR vary between processes as they do between wasm instantiations only partially; same-process instances share the allocator'],
   plan (ctx) {
-    const n = ctx.tier === 'thorough' ? 2000 : 64
+    const n = ctx.tier === 'thorough' ? 2000 : 128
     const shards = []
     for (let k = 0; k < n; k++) shards.push({ kind: 'history', stream: k })
     const groups = []
